@@ -184,6 +184,28 @@ def r_skip_take(F, R, cat=None):
                         where="%s:%s" % (ctx.body.file, t["line"]),
                         detail="take(%s) after skip(%s)" % (show(cnt), show(a)) +
                         (": the end of the pair is used as a count" if bad else ""))
+            # the other order: `iter.take(n).skip(a)` keeps positions a..n, so n must be an *end*
+            # position.  A length (`range.len()`, `end - start`) of the range whose start is then
+            # skipped yields len - start elements, from the wrong place unless start is 0.
+            for (bi, t) in ctx.body.calls():
+                if callee_tag(t.get("callee")) != ("Iterator", "skip") or len(t["args"]) != 2:
+                    continue
+                recv = nobb(operand_tree(ctx, t["args"][0]))
+                a = nobb(operand_tree(ctx, t["args"][1]))
+                takes = [nd for nd in walk(recv) if nd and nd[0] == "call" and nd[1] == ("Iterator", "take") and len(nd[2]) == 2]
+                if not takes or not (a[0] == "place" and a[3] and a[3][-1] in ("f:start", "f:0", "f:lower", "f:lo")):
+                    continue
+                n += 1
+                cnt = takes[0][2][1]
+                base = ("place",) + tuple(a[1:3]) + (tuple(a[3][:-1]),)
+                is_len = (cnt[0] == "call" and cnt[1][1] == "len" and cnt[2] and cnt[2][0] == base) or \
+                    (cnt[0] == "bin" and cnt[1] == "Sub" and cnt[3] == a and cnt[2][0] == "place" and
+                     tuple(cnt[2][3][:-1]) == tuple(a[3][:-1]))
+                R.saw(top)
+                R.check("R-FORWARD", top.label(), not is_len, construct="take(end).skip(start)",
+                        where="%s:%s" % (ctx.body.file, t["line"]),
+                        detail="skip(%s) after take(%s)" % (show(a), show(cnt)) +
+                        (": the length of the range is used as an end position (only right for a range that starts at 0)" if is_len else ""))
     R.info("R-FORWARD: %d skip(..).take(..) chains inspected" % n)
 
 
